@@ -38,7 +38,8 @@ extern parsec_list_t mpi_funnelled_dynamic_sendreq_fifo, mpi_funnelled_dynamic_r
 
 static int me, world;
 static uint64_t seed;
-static vf_rng_t rng;
+static vf_rng_t rng;      /* generation steps only: the traffic a rank originates is a pure function of the seed */
+static vf_rng_t cbrng;    /* decisions taken while serving (callbacks, queued puts): their order depends on arrival */
 
 /* ---------------------------------------------------------------- byte streams */
 static inline uint8_t stream_byte(uint64_t key, size_t j) { return (uint8_t)(vf_mix(key, j >> 3) >> ((j & 7) * 8)); }
@@ -156,7 +157,6 @@ static void rx_mark(rx_t *r, uint32_t seq, int src, int tagidx, const char *what
 static int echo_permille, totals_frozen; static uint64_t echoes;
 static void send_one(int dst, int ti, uint32_t len);
 static int other_rank(void);
-static uint32_t pick_len_small(void) { return vf_randn(&rng, 17); }
 static int am_cb(parsec_comm_engine_t *ce, parsec_ce_tag_t tag, void *msg, size_t size, int src, void *cb_data) {
     (void)ce; int ti = (int)(intptr_t)cb_data;
     in_cb++; EVENT(); am_recv++; am_bytes += size;
@@ -165,7 +165,7 @@ static int am_cb(parsec_comm_engine_t *ce, parsec_ce_tag_t tag, void *msg, size_
     rx_t *r = &rx[src][ti]; r->nrecv++; r->bytes += size;
     /* a callback may use the engine while it still owns the message (remote_dep_mpi_save_put_cb starts a put, i.e. a
      * send_am, from inside its callback): send first, look at the bytes afterwards */
-    if (echo_permille && !totals_frozen && in_cb == 1 && vf_chance(&rng, echo_permille)) { echoes++; send_one(other_rank(), (int)vf_randn(&rng, ntags), pick_len_small()); }
+    if (echo_permille && !totals_frozen && in_cb == 1 && vf_chance(&cbrng, echo_permille)) { echoes++; int d = vf_randn(&cbrng, world - 1); send_one(d >= me ? d + 1 : d, (int)vf_randn(&cbrng, ntags), vf_randn(&cbrng, 17)); }
     if (size > maxlen[ti]) vf_violation("am:size", "rank %d: %zu bytes delivered on tag %lu registered for %u", me, size, (unsigned long)tag, maxlen[ti]);
     if (size < 4) {
         uint8_t e[4]; stream_fill(e, 0, size, tiny_key(src, me, ti, (int)size));
@@ -265,9 +265,9 @@ static int put_local_cb(parsec_comm_engine_t *ce, parsec_ce_mem_reg_handle_t lre
     in_cb--; return 1;
 }
 static void put_start(job_t *j) {
-    layout_t l; lay_random(&l, j->nbytes, &rng, 1);
+    layout_t l; lay_random(&l, j->nbytes, &cbrng, 1);
     if (l.nbytes != j->nbytes) { l.nbytes = j->nbytes; l.blocklen = 0; l.stride = 0; }   /* keep the byte count of the request */
-    j->ldispl = vf_chance(&rng, 300) ? (size_t)(1 + vf_randn(&rng, 2000)) : 0;
+    j->ldispl = vf_chance(&cbrng, 300) ? (size_t)(1 + vf_randn(&cbrng, 2000)) : 0;
     buf_make(&j->src, &l, j->ldispl); buf_fill(&j->src, put_key(me, j->dest, j->opid));
     size_t hs; parsec_ce.mem_register(buf_reg_base(&j->src), PARSEC_MEM_TYPE_NONCONTIGUOUS, j->src.count, j->src.dt, -1, &j->lh, &hs);
     j->cbd.magic = CB_MAGIC; j->cbd.opid = j->opid; j->cbd.initiator = j->dest; j->cbd.region = -1; j->cbd.check = cbd_check(&j->cbd);
@@ -288,7 +288,7 @@ static int ctl_cb(parsec_comm_engine_t *ce, parsec_ce_tag_t tag, void *msg, size
     putreq_recv++;
     job_t *j = calloc(1, sizeof *j); j->dest = src; j->opid = q->opid; j->nbytes = q->nbytes; j->rcb = q->rcb; memcpy(j->h, q->h, hsz);
     /* as remote_dep_mpi_save_put_cb does: start at once when the engine can serve, else queue */
-    if (vf_chance(&rng, put_immediate_permille) && parsec_ce.can_serve(&parsec_ce)) { put_in_cb++; put_start(j); }
+    if (vf_chance(&cbrng, put_immediate_permille) && parsec_ce.can_serve(&parsec_ce)) { put_in_cb++; put_start(j); }
     else { if (job_tail) job_tail->next = j; else job_head = j; job_tail = j; }
     in_cb--; return 1;
 }
@@ -396,7 +396,7 @@ static void get_issue(void) {
 static int serve_queues(void) {
     int n = 0;
     while ((job_head || get_defer_head) && parsec_ce.can_serve(&parsec_ce)) {
-        if (job_head && (!get_defer_head || vf_chance(&rng, 500))) { job_t *j = job_head; job_head = j->next; if (!job_head) job_tail = NULL; j->next = NULL; put_start(j); }
+        if (job_head && (!get_defer_head || vf_chance(&cbrng, 500))) { job_t *j = job_head; job_head = j->next; if (!job_head) job_tail = NULL; j->next = NULL; put_start(j); }
         else { op_t *o = get_defer_head; get_defer_head = o->next; if (!get_defer_head) get_defer_tail = NULL; o->next = NULL; get_start(o); }
         n++;
     }
@@ -431,7 +431,7 @@ int main(int argc, char **argv) {
     put_immediate_permille = (int)vf_arg_ll(argc, argv, "--put-immediate", 500);
     echo_permille = (int)vf_arg_ll(argc, argv, "--echo", 60);
     if (world < 2 || world > MAXR) { if (!me) fprintf(stderr, "need 2..%d ranks\n", MAXR); MPI_Finalize(); return 2; }
-    vf_rng_seed(&rng, seed, 1000 + me);
+    vf_rng_seed(&rng, seed, 1000 + me); vf_rng_seed(&cbrng, seed, 5000 + me);
     if (os_max < 16) os_max = 16;
 
     int pargc = 0; char **pargv = NULL;
@@ -484,6 +484,25 @@ int main(int argc, char **argv) {
         MPI_Allgather(&mine, sizeof mine, MPI_BYTE, pub, sizeof mine, MPI_BYTE, MPI_COMM_WORLD);
     }
     MPI_Barrier(MPI_COMM_WORLD);
+
+    /* ---- --tag-offset N: rank r first performs r*N zero-byte gets, so that the per-process transfer-tag counters of
+     * different ranks stay in disjoint ranges for the rest of the run (each rank uses far fewer than N tags).  With
+     * that, puts and gets may share an ordered pair of processes without two transfers in flight ever carrying the
+     * same tag on the unchanged engine -- and a transfer-tag allocator that hands out a tag still in use shows. ---- */
+    long tag_offset = vf_arg_ll(argc, argv, "--tag-offset", 0);
+    if (tag_offset > 0) {
+        long want = (long)me * tag_offset, issued = 0; int alldone = 0;
+        force_region = 0;                            /* region 0 is the zero-byte region */
+        while (!alldone) {
+            for (int b = 0; b < 64 && issued < want; b++, issued++) { force_peer = (me + 1 + (int)(issued % (world - 1))) % world; if (force_peer == me) force_peer = (me + 1) % world; get_issue(); }
+            progress_n(kprog);
+            int mine = (issued == want && get_lcb_n == (uint64_t)want && !get_defer_head), sum = 0;
+            MPI_Request rq; int fl = 0; MPI_Iallreduce(&mine, &sum, 1, MPI_INT, MPI_SUM, MPI_COMM_WORLD, &rq);
+            while (!fl) { MPI_Test(&rq, &fl, MPI_STATUS_IGNORE); if (!fl) progress_n(1); }
+            alldone = (sum == world);
+        }
+        force_peer = -1; force_region = -1;
+    }
 
     /* ---- scenario: one put and one get between the same two processes, issued so that both are in flight at once ----
      * rank 1 asks rank 0 for a put; rank 0 starts it (transfer tag from rank 0's counter); rank 1, which has not yet seen
@@ -648,13 +667,18 @@ int main(int argc, char **argv) {
 
     /* ---- report ---- */
     uint64_t loc[24] = {am_sent, am_recv, am_bytes, put_started, put_lcb, put_rcb_n, get_started, get_lcb_n, get_rcb_n, os_bytes, cannot_serve_obs,
-                        dynq_send_obs, dynq_recv_obs, put_in_cb, strided_ops, zero_ops, bursts_over_pool, lost, extra, (uint64_t)vf_nviolations, events, 0, 0, 0}, sum[24], mx[4], lmx[4] = {max_burst, os_outstanding_max, max_os_size, (uint64_t)rounds};
+                        dynq_send_obs, dynq_recv_obs, put_in_cb, strided_ops, zero_ops, bursts_over_pool, lost, extra, (uint64_t)vf_nviolations, events, 0, 0, 0}, sum[24], mx[5], lmx[5] = {max_burst, os_outstanding_max, max_os_size, (uint64_t)rounds, 0}, lmx_extra = 0;
+    uint64_t tags_used = put_started + get_started;
+    if (tag_offset > 0 && tags_used - (uint64_t)me * tag_offset >= (uint64_t)tag_offset)
+        fprintf(stderr, "c14: rank %d used %lu transfer tags after its offset, more than --tag-offset %ld: tag ranges overlapped\n", me, (unsigned long)(tags_used - (uint64_t)me * tag_offset), tag_offset);
+    lmx_extra = (tag_offset > 0) ? tags_used - (uint64_t)me * tag_offset : 0;
     uint64_t ob = 0; for (int s = 0; s < world; s++) for (int t = 0; t <= ntags; t++) ob += rx[s][t].order_breaks; loc[21] = ob;
     uint64_t tz = 0; for (int s = 0; s < world; s++) for (int t = 0; t < ntags; t++) tz += rx[s][t].ntiny[0]; loc[22] = tz;
     loc[23] = echoes;
     MPI_Reduce(loc, sum, 24, MPI_UINT64_T, MPI_SUM, 0, MPI_COMM_WORLD);
     uint64_t echoes_all = sum[23];
-    MPI_Reduce(lmx, mx, 4, MPI_UINT64_T, MPI_MAX, 0, MPI_COMM_WORLD);
+    lmx[4] = lmx_extra;
+    MPI_Reduce(lmx, mx, 5, MPI_UINT64_T, MPI_MAX, 0, MPI_COMM_WORLD);
     /* traffic matrix hash: what each rank actually received */
     uint64_t h = 0; for (int s = 0; s < world; s++) for (int t = 0; t <= ntags; t++) h = vf_mix(h, vf_mix(rx[s][t].nrecv, rx[s][t].bytes));
     uint64_t hs[MAXR]; MPI_Gather(&h, 1, MPI_UINT64_T, hs, 1, MPI_UINT64_T, 0, MPI_COMM_WORLD);
@@ -665,12 +689,12 @@ int main(int argc, char **argv) {
                "\"am_sent\":%llu,\"am_recv\":%llu,\"am_bytes\":%llu,\"am_zero_len\":%llu,\"max_burst\":%llu,\"bursts_over_pool\":%llu,"
                "\"puts\":%llu,\"put_lcb\":%llu,\"put_rcb\":%llu,\"gets\":%llu,\"get_lcb\":%llu,\"get_rcb\":%llu,\"os_bytes\":%llu,\"os_max_size\":%llu,"
                "\"os_outstanding_max\":%llu,\"cannot_serve_obs\":%llu,\"dynq_send_obs\":%llu,\"dynq_recv_obs\":%llu,\"put_in_cb\":%llu,\"strided_ops\":%llu,\"zero_ops\":%llu,"
-               "\"lost\":%llu,\"extra\":%llu,\"order_breaks\":%llu,\"violations\":%llu,\"events\":%llu,\"rounds\":%llu,\"quiescent_unsatisfied\":%d,\"get_regions\":%d,\"traffic_hash\":\"%016llx\",\"t_init\":%.1f,\"t_rounds\":%.1f,\"t_post\":%.1f}",
+               "\"lost\":%llu,\"extra\":%llu,\"order_breaks\":%llu,\"violations\":%llu,\"events\":%llu,\"rounds\":%llu,\"quiescent_unsatisfied\":%d,\"get_regions\":%d,\"traffic_hash\":\"%016llx\",\"echoes\":%llu,\"tag_offset\":%ld,\"max_tags_after_offset\":%llu,\"t_init\":%.1f,\"t_rounds\":%.1f,\"t_post\":%.1f}",
                world, (unsigned long long)seed, tl, have_ctl ? (int)ctl_tag : -1, p_posted, p_tested, p_dyn, p_dynrecv,
                (unsigned long long)sum[0], (unsigned long long)sum[1], (unsigned long long)sum[2], (unsigned long long)sum[22], (unsigned long long)mx[0], (unsigned long long)sum[16],
                (unsigned long long)sum[3], (unsigned long long)sum[4], (unsigned long long)sum[5], (unsigned long long)sum[6], (unsigned long long)sum[7], (unsigned long long)sum[8], (unsigned long long)sum[9], (unsigned long long)mx[2],
                (unsigned long long)mx[1], (unsigned long long)sum[10], (unsigned long long)sum[11], (unsigned long long)sum[12], (unsigned long long)sum[13], (unsigned long long)sum[14], (unsigned long long)sum[15],
-               (unsigned long long)sum[17], (unsigned long long)sum[18], (unsigned long long)sum[21], (unsigned long long)sum[19], (unsigned long long)sum[20], (unsigned long long)mx[3], quiescent_unsatisfied, ngreg, (unsigned long long)hh, (unsigned long long)echoes_all, t_init - t_start, t_rounds - t_init, vf_now() - t_rounds);
+               (unsigned long long)sum[17], (unsigned long long)sum[18], (unsigned long long)sum[21], (unsigned long long)sum[19], (unsigned long long)sum[20], (unsigned long long)mx[3], quiescent_unsatisfied, ngreg, (unsigned long long)hh, (unsigned long long)echoes_all, tag_offset, (unsigned long long)mx[4], t_init - t_start, t_rounds - t_init, vf_now() - t_rounds);
     }
     fflush(stdout);
     MPI_Barrier(MPI_COMM_WORLD);
